@@ -307,7 +307,6 @@ namespace bloch::compiler {
 
         // Parse annotations
         while (check(TokenType::At)) {
-            (void)previous();
             std::unique_ptr<AnnotationNode> annotation = parseFunctionAnnotation();
             // TODO: Refactor this to a switch statement
             if (annotation->name == "quantum") {
@@ -1428,7 +1427,15 @@ namespace bloch::compiler {
             if (!check(TokenType::Identifier) && isTypeAhead()) {
                 std::unique_ptr<Type> targetType = parseType();
                 (void)expect(TokenType::RParen, "Expected ')' after type in cast expression");
+                // a cast of a cast of a cast ... recurses here without passing through the
+                // expression entry points, so it is counted here as well
+                DepthGuard guard(m_expressionDepth);
+                if (m_expressionDepth > kMaxExpressionDepth)
+                    reportError("expression is nested too deeply");
+                TreeDepth built(m_operandDepth);
                 std::unique_ptr<Expression> operand = parseUnary();
+                if (built.current() > kMaxExpressionDepth)
+                    reportError("expression is nested too deeply");
                 std::unique_ptr<CastExpression> cast =
                     std::make_unique<CastExpression>(std::move(targetType), std::move(operand));
                 cast->line = lparen.line;
